@@ -310,3 +310,8 @@ package vm
 //@   loop OpMethod invariant[i] i >= -1
 //@   loop OpMethodNilSafe invariant[i] i >= -1
 //@   loop OpArray invariant[i] i >= -1
+// jumps: the operand is the little-endian 16-bit value in the two bytes after the opcode
+//@   case OpJump: ensures[ip] vm.ip == head(vm.ip) + 3 + int(vm.bytecode[head(vm.ip)+1]) + 256*int(vm.bytecode[head(vm.ip)+2])
+//@   case OpJumpBackward: ensures[ip] vm.ip == head(vm.ip) + 3 - (int(vm.bytecode[head(vm.ip)+1]) + 256*int(vm.bytecode[head(vm.ip)+2]))
+//@   case OpJumpIfTrue: ensures[ip] vm.ip == head(vm.ip) + 3 || vm.ip == head(vm.ip) + 3 + int(vm.bytecode[head(vm.ip)+1]) + 256*int(vm.bytecode[head(vm.ip)+2])
+//@   case OpJumpIfFalse: ensures[ip] vm.ip == head(vm.ip) + 3 || vm.ip == head(vm.ip) + 3 + int(vm.bytecode[head(vm.ip)+1]) + 256*int(vm.bytecode[head(vm.ip)+2])
